@@ -91,6 +91,8 @@ def csig(probs):
 
 
 def worker(item):
+    if item[0] == 'preempt':
+        return preempt_worker(item)
     chunk, bound, seed = item
     acc = Acc()
     for sc in chunk:
@@ -104,6 +106,37 @@ def worker(item):
             if probs:
                 acc.violation(csig(probs), sc, trim(choices), probs[:3])
     acc.sample({'scenario': chunk[0], 'deviation_bound': bound})
+    return acc
+
+
+def preempt_worker(item):
+    """one thread of the transaction - the receive thread of either stack, the client or the server application thread - is
+    suspended for 2 ms at every source line it executes in the DM14 code (every party runs on a thread of its own)"""
+    _k, sd, op, thread, seed = item
+    acc = Acc()
+    ops = [dict(op), rd(0x1000, 4)]
+    base = {'seed': sd, 'base_lat': 0.2e-3, 'rx_threads': True}
+    counts = []
+    for _ in range(2):
+        sc = {'cfg': dict(base, preempt={'thread': thread, 'point': 0}), 'ops': ops}
+        d = DmWorld(sc['cfg'])
+        try:
+            d.run(ops)
+            counts.append(d.pre.count)
+            p0 = judge(d, ops)
+        finally:
+            d.close()
+    if counts[0] != counts[1] or p0:
+        acc.violation("HARNESS: DM14 pre-emption baseline not clean / not reproducible", {'cfg': base, 'ops': ops}, None, p0[:2] + [repr(counts)])
+        return acc
+    for pt in range(1, counts[0] + 1):
+        sc = {'cfg': dict(base, preempt={'thread': thread, 'point': pt, 'hold': 0.002}), 'ops': ops}
+        points, probs, outcome, _ = run_one(sc, (), seed)
+        acc.case((repr(sc), ()), outcome=outcome)
+        acc.add('transactions', len(ops))
+        if probs:
+            acc.violation(csig(probs), sc, None, probs[:3])
+    acc.sample({'scenario': {'cfg': base, 'ops': ops}, 'thread': thread, 'line_events': counts[0]})
     return acc
 
 
@@ -206,6 +239,11 @@ def run(tier, seed):
     for (s, b) in sc:
         if b:
             items.append(([s], b, seed))
+    pops = [rd(0x1000, 4), wr(0x1000, 9)] if tier == 'quick' else [rd(0x1000, 1), rd(0x1000, 4), rd(0x1000, 8), rd(0x1000, 9), wr(0x1000, 4), wr(0x1000, 8), wr(0x1000, 9)]
+    for sd in (None, 0xA55A):
+        for op in pops:
+            for thread in ('R:C', 'R:S', 'cliapp', 'srvapp'):
+                items.append(('preempt', sd, op, thread, seed))
     return run_check(PROP, tier, seed, 'exploration', items, worker, RULE, ASSUME,
                      bounds={'lengths': '1..255' if tier != 'quick' else QUICK_N, 'deviation_bound': 1 if tier == 'quick' else 2})
 
